@@ -454,6 +454,12 @@ impl PanicInfo {
         }
         f.to_string()
     }
+    /// Stable signature: site + message with digits removed (so that two different panics in one
+    /// file are told apart, while unrelated line-number drift does not matter).
+    pub fn sig(&self) -> String {
+        let msg: String = self.msg.chars().filter(|c| !c.is_ascii_digit()).take(60).collect();
+        format!("panic@{} [{}]", self.site(), msg.trim())
+    }
     pub fn in_harness(&self) -> bool {
         self.loc.contains("/verif/harness/") || self.loc.starts_with("src/")
     }
